@@ -1,11 +1,14 @@
 (* Extract/Gen.v — extraction of the go2v-generated definitions, for the translator cross-check (R on the (T) functions). *)
 Require Extraction.
 Require Import ExtrOcamlBasic.
-From Verif Require Import Common.GoInt Gen.GasLimit Gen.Sequence Gen.Epoch Gen.PoolSync.
+From Verif Require Import Common.GoInt Gen.GasLimit Gen.Sequence Gen.Epoch Gen.PoolSync Gen.StakerTime.
 From Coq Require Import NArith.
 (* N.of_nat is extracted only so that the shared glue (wire.ml: N, nat) links *)
 Extraction Language OCaml.
 Extraction "../oracle/gen/model.ml"
   GasLimit_IsValid GasLimit_Qualify GasLimit_Adjust
   newSequence sequence_BlockNumber sequence_TxIndex sequence_LogIndex
-  getCheckPoint isCheckPoint getStorePoint isChainSynced N.of_nat.
+  getCheckPoint isCheckPoint getStorePoint isChainSynced
+  Validation_IsOnline Validation_IsPeriodEnd Validation_NextPeriodTVL Validation_CurrentIteration Validation_CompletedIterations
+  Validation_CooldownEnded Validation_CalculateWithdrawableVET Validation_multiplier
+  Delegation_Started Delegation_Ended Delegation_IsLocked N.of_nat.
